@@ -360,9 +360,8 @@ def main(tier):
             states += res.distinct
             transitions += res.generated
             for t in sorted(tx):
-                h = hash(t)
-                if h not in seen:
-                    seen.add(h)
+                if t not in seen:
+                    seen.add(t)
                     items.append(tx[t])
         out.clear()
         total += len(items)
